@@ -103,3 +103,42 @@ where
         Err(e) => json!({"err": e.to_string()}),
     }
 }
+
+fn params_json(p: conjure_error::Params<'_>) -> Value {
+    let mut m = serde_json::Map::new();
+    for (k, v) in p.iter() {
+        m.insert(k.to_string(), json!(conjure_serde::json::to_string(v).unwrap_or_else(|e| format!("ERR {e}"))));
+    }
+    Value::Object(m)
+}
+
+/// C17: a generated error type: parse its parameter object, encode it, build a service error.
+pub fn error_ops<T: DeserializeOwned + Serialize + conjure_error::ErrorType + Clone>(doc: &str, mode: &str) -> Value {
+    let e: T = match conjure_serde::json::client_from_str(doc) {
+        Ok(e) => e,
+        Err(x) => return json!({"parse_err": x.to_string()}),
+    };
+    let id: conjure_object::Uuid = "6ba7b810-9dad-11d1-80b4-00c04fd430c8".parse().unwrap();
+    let encoded = conjure_error::encode(&e);
+    let with_id = conjure_error::encode(&conjure_error::ErrorType::with_instance_id(e.clone(), id));
+    let err = match mode {
+        "service" => conjure_error::Error::service("cause", e.clone()),
+        "service_safe" => conjure_error::Error::service_safe("cause", e.clone()),
+        "propagated" => conjure_error::Error::propagated_service("cause", conjure_error::encode(&e)),
+        _ => conjure_error::Error::propagated_service_safe("cause", conjure_error::encode(&e)),
+    };
+    let status = match err.kind() {
+        conjure_error::ErrorKind::Service(s) => s.error_code().status_code(),
+        _ => 0,
+    };
+    let text = conjure_serde::json::to_string(&encoded).unwrap();
+    let back: Result<conjure_error::SerializableError, _> = conjure_serde::json::server_from_str(&text);
+    json!({
+        "code": conjure_serde::json::to_string(encoded.error_code()).unwrap().trim_matches('"'),
+        "name": encoded.error_name(), "parameters": encoded.parameters(),
+        "given_id_kept": with_id.error_instance_id() == id, "fresh_id_differs": encoded.error_instance_id() != id,
+        "declared_safe_args": conjure_error::ErrorType::safe_args(&e),
+        "json_roundtrip": back.map(|b| b == encoded).unwrap_or(false),
+        "safe_params": params_json(err.safe_params()), "unsafe_params": params_json(err.unsafe_params()), "status": status,
+    })
+}
